@@ -19,18 +19,21 @@ from typing import Any, Dict, List, Optional, Tuple
 from harness.lib import coqbuild, protocol as P, sched as S
 
 LEVEL = "proof"
-THEOREMS = ["C01_serializable", "C01_acked_exactly_once", "C01_raised_not_reflected", "C01_chain_linear"]
+THEOREMS = ["C01_serializable", "C01_acked_exactly_once", "C01_raised_not_reflected", "C01_chain_linear",
+            "C01_skeleton_regenerated", "C01_conflict_retried"]
 REQ = ["DS.Model.Commit"]
 MANIFEST_ENTRY = {
     "level_text": "Serializability of the OCC commit protocol proved in Coq (C01_serializable and companions) by an inductive "
                   "invariant over every schedule of any number of committers with any clock readings, for exclusive-lock and CAS "
                   "storage; the model is tied to the code by trace validation: real commits run under a deterministic scheduler "
                   "at storage-operation granularity and every observed protocol event must be accepted by the model's strict "
-                  "run; an implementation-only serializability oracle judges every explored schedule",
-    "level_note": "trusted: Coq kernel; projection of the storage log onto model events (harness/lib/protocol.py); flock "
+                  "run; the validation kernel, the stamp rule, the action skeleton of MetadataManager.commit and the retry / handler "
+                  "tables are regenerated from the source by translator/gen_commit.py (Gen/GenCommit.v) and the proofs re-run "
+                  "against them (C01_skeleton_regenerated); an implementation-only serializability oracle judges every explored schedule",
+    "level_note": "trusted: Coq kernel; translator/gen_commit.py; projection of the storage log onto model events (harness/lib/protocol.py); flock "
                   "exclusivity (kernel; C19); metadata files are write-once so pointer read + file read are one step; table "
                   "content abstracted to the list of applied operations (their meaning is C15)",
-    "technique": "Coq invariant proof over an interleaving machine + trace validation of real executions",
+    "technique": "Coq invariant proof over an interleaving machine with translator-regenerated decision kernels and skeleton + trace validation of real executions",
     "design_ref": "DESIGN.md section 5 C01",
 }
 
@@ -328,7 +331,7 @@ def run(ctx) -> None:
         "kernel flock exclusivity for the local lock (Excl); write-once metadata files",
     ]
     ctx.assumptions += ["pointer intact (C10 covers damaged pointers)", "no garbage collection concurrent with commits (C06)"]
-    ctx.proofs(THEOREMS)
+    ctx.proofs(THEOREMS, gen_files=["GenCommit.v"])
     ctx.allow_axioms([])
     quick = ctx.tier == "quick"
     runs: List[Tuple[Dict[str, Any], Any, P.CaseResult]] = []
